@@ -471,7 +471,9 @@ class ClientSSM(SSM):
             else:
                 if _debug: ClientSSM._debug("    - more segments to send")
 
-                self.initialSequenceNumber = (apdu.apduSeq + 1) % 256
+                # the index of the next segment is absolute, only the sequence
+                # numbers on the wire wrap at 256
+                self.initialSequenceNumber += ((apdu.apduSeq - self.initialSequenceNumber) % 256) + 1
                 self.segmentRetryCount = 0
                 self.fill_window(self.initialSequenceNumber)
                 self.restart_timer(self.segmentTimeout)
@@ -1107,7 +1109,9 @@ class ServerSSM(SSM):
             else:
                 if _debug: ServerSSM._debug("    - more segments to send")
 
-                self.initialSequenceNumber = (apdu.apduSeq + 1) % 256
+                # the index of the next segment is absolute, only the sequence
+                # numbers on the wire wrap at 256
+                self.initialSequenceNumber += ((apdu.apduSeq - self.initialSequenceNumber) % 256) + 1
                 self.actualWindowSize = apdu.apduWin
                 self.segmentRetryCount = 0
                 self.fill_window(self.initialSequenceNumber)
